@@ -162,6 +162,16 @@ pub fn generate(ctx: &mut Ctx) {
             }
         }
     }
+    for n in [120usize, 250, 255, 256, 257, 300, 511, 512, 70000] {
+        if ctx.mine(bi) {
+            let mt = "a".repeat(n);
+            for b64 in ["", ";base64"] {
+                ctx.run(Case::new("one").arg(format!("data:{}{},QQ==", mt, b64)));
+                ctx.run(Case::new("one").arg(format!("data:{}/{}{},{}", mt, mt, b64, "Zm9v".repeat(n / 4))));
+            }
+        }
+        bi += 1;
+    }
     let fixed: &[&str] = &[
         "data:,", "data:,A%20brief%20note", "data:text/plain;base64,SGVsbG8sIFdvcmxkIQ==", "data:text/plain;charset=UTF-8,x", "data:;base64,", "data:;base64,Zg==",
         "data:;base64,Zg=", "data:;base64,Zh==", "data:;base64,Z", "data:;base64,Zm9v", "data:;base64,Zm9vYg==", "data:;base64,Zm9vYmE=", "data:;base64,Zm 9v",
@@ -225,6 +235,14 @@ pub fn generate(ctx: &mut Ctx) {
                     _ => {}
                 }
                 format!("data:{}{};base64,{}", rng.pick(&["", "text/plain", "a/b", "image/svg+xml"]), rng.pick(&["", ";charset=x"]), e)
+            }
+            3 if rng.chance(1, 3) => {
+                // media types longer than any fixed-width offset
+                let mut mt = String::from("application/");
+                for _ in 0..rng.range(100, 700) {
+                    mt.push_str(rng.pick(&["a", "b", "x-", "1", "+", "."]));
+                }
+                format!("data:{}{},{}", mt, rng.pick(&["", ";base64"]), rng.pick(&["", "QQ==", "x", "Zm9v"]))
             }
             _ => {
                 let mt = rng.pick(&["", "text/plain", "a", "a/b", "a;b", "a,b", "\u{e9}", "a b", "a#b", "a?b", "%41"]);
